@@ -24,7 +24,7 @@ import (
 
 type boardStats struct {
 	FollowerReads, ConcurrentReads, ContentsCompared                                                int
-	SameHandleHistories, SizeTargetsHit, HugeSends, OddLines, MentionHistories                                                  int
+	SameHandleHistories, SizeTargetsHit, HugeSends, OddLines, MentionHistories, LineOps                                                  int
 	Ops, Histories, Sends, Reads, MaxWriters, DistinctSizes, ProcessHistories, DefaultLockHistories int
 	OutcomeHist                                                                                     map[string]int
 	Monitors                                                                                        []string
@@ -204,6 +204,17 @@ func runBoardDiff(outDir string, seed int64, tier string) {
 		if len(st.Samples) < 10 && (st.Ops%37 == 3) {
 			st.Samples = append(st.Samples, truncate(op, 160)+" => "+truncate(ob, 160))
 		}
+	}
+	// a second stream: the odd-line histories in the terms of Model/BoardLines.lean (driver mode `boardlines`)
+	flo, _ := os.Create(filepath.Join(outDir, "boardlines_ops.txt"))
+	flb, _ := os.Create(filepath.Join(outDir, "boardlines_obs.txt"))
+	lops := bufio.NewWriter(flo)
+	lobs := bufio.NewWriter(flb)
+	defer func() { lops.Flush(); lobs.Flush(); flo.Close(); flb.Close() }()
+	emitL := func(op, ob string) {
+		fmt.Fprintln(lops, op)
+		fmt.Fprintln(lobs, ob)
+		st.LineOps++
 	}
 	self, _ := os.Executable()
 	histories := 14
@@ -726,6 +737,10 @@ func runBoardDiff(outDir string, seed int64, tier string) {
 						return storage.Message{DkgRoundID: fmt.Sprintf("odd-%d", k), Event: fmt.Sprintf("o%d-%d", h, k), Data: []byte(fmt.Sprintf("data-%d", k)), Signature: []byte(fmt.Sprintf("sig-%d", k)), SenderAddr: fmt.Sprintf("s%d", k), RecipientAddr: fmt.Sprintf("r%d", k)}
 					}
 					var sent []storage.Message
+					modelled := kind != "sparse-line" // (a line that decodes but was not written by Send has no counterpart in the model)
+					if modelled {
+						emitL("reset", "reset")
+					}
 					send := func(k int) bool {
 						m := mk(k)
 						ms := []storage.Message{m}
@@ -734,6 +749,10 @@ func runBoardDiff(outDir string, seed int64, tier string) {
 							return false
 						}
 						sent = append(sent, ms[0])
+						if modelled {
+							lz, _ := json.Marshal(ms[0])
+							emitL(fmt.Sprintf("send %s %d", hs(ms[0].ID), len(lz)), fmt.Sprintf("off %d", ms[0].Offset))
+						}
 						return true
 					}
 					if !send(0) || !send(1) {
@@ -747,8 +766,10 @@ func runBoardDiff(outDir string, seed int64, tier string) {
 					case "torn-tail":
 						half, _ := json.Marshal(mk(99))
 						raw.Write(half[:len(half)/2])
+						emitL(fmt.Sprintf("dies %d", len(half)/2), "ok")
 					case "garbage-line":
 						raw.Write([]byte("\x00\x01 not a message {\n"))
+						emitL("garbage 19", "ok")
 					case "sparse-line":
 						raw.Write([]byte(`{"id":"sparse","offset":2,"event":"sparse-event"}` + "\n"))
 					}
@@ -808,6 +829,17 @@ func runBoardDiff(outDir string, seed int64, tier string) {
 					// reads from every offset: the sent messages from that position on
 					for off := 0; off <= len(lines); off++ {
 						part, err := rd.GetMessages(uint64(off))
+						if modelled {
+							ob := "err"
+							if err == nil {
+								ps := make([]string, len(part))
+								for i, m := range part {
+									ps[i] = fmt.Sprintf("%d:%s", m.Offset, hs(m.ID))
+								}
+								ob = "ok [" + strings.Join(ps, ",") + "]"
+							}
+							emitL(fmt.Sprintf("read %d - -", off), ob)
+						}
 						if err != nil {
 							st.Monitors = append(st.Monitors, fmt.Sprintf("C18 board_stays_readable: odd-line history %d (%s): GetMessages(%d) fails: %s", h, kind, off, truncate(err.Error(), 100)))
 							return
